@@ -106,6 +106,9 @@ def run(ctx):
         B = jobtask.Bodies(ctx, "R18.4")
         jobrules.hook_discipline(ctx, B, rule="R18.4")
         jobrules.callbox_table(ctx, "R18.4")
+        jobrules.check_api_table(ctx, "R18.4")      # set_spawn_hook & co. are queued in order with the controls they precede
+        from . import c17 as _c17e
+        _c17e.emission_plumbing(ctx, "R18.4")       # the CLI's own hook applies the user's -E variables in every emission mode
         sp = ctx.anchor_fn("R18.4", SUP + "::job::state::CommandState::spawn")
         calls = [(strip_generics(c), n) for c, n in thir.calls_in(thir.root(sp)) if strip_generics(c).endswith("TokioCommandWrap::spawn")]
         ok = len(calls) == 1 and pathx.desc(calls[0][1]["a"][0]) == "spawnable"
@@ -144,6 +147,18 @@ def run(ctx):
         ctx.require(dsh == "Shell{prog: Into::into(name), options: Vec::new(), program_option: Some{0: Borrowed{0: OsStr::new('-c')}}}", "R18.6", "shell-new",
                     "Shell::new(name) = {prog: name, options: [], program_option: -c}", shn.loc(shn.line), detail=dsh[:200],
                     fail="Shell::new interprets the shell path instead of taking it as given (%s): a path with spaces is split into a different program plus options" % dsh[:160])
+    except Skip:
+        pass
+
+    # ---- R18.6b -E KEY=VALUE reaches the child byte for byte
+    try:
+        ep = ctx.anchor_one("R18.6", "EnvVarValueParser::parse_ref", ctx.facts.fns_matching(r"EnvVarValueParser as clap_builder::builder::value_parser::TypedValueParser>::parse_ref$"))
+        lit = [n for n in thir.find(thir.root(ep), "adt") if n.get("adt", "").endswith("EnvVar")]
+        flds = [{k: pathx.desc(v) for k, v in n["f"]} for n in lit]
+        sp_ = [[pathx.desc(a) for a in nd["a"]] for c, nd in thir.calls_in(thir.root(ep)) if strip_generics(c).endswith("split_once")]
+        ctx.require(flds == [{"key": "Into::into(key)", "value": "Into::into(value)"}] and len(sp_) == 1 and sp_[0][1] == "'='", "R18.6", "env-var-verbatim",
+                    "-E KEY=VALUE is split at the first `=` and both halves are stored as given", ep.loc(ep.line), detail="%s %s" % (flds, sp_),
+                    fail="the -E parser transforms the key or the value (%s): the child does not receive the variable byte for byte" % flds)
     except Skip:
         pass
 
